@@ -13,16 +13,22 @@
    The same is proved for EVERY aliased group (values sharing descriptions: ragged rows of any
    lengths within maxX, walked column by column through findFirstCandidate, whose loop is
    shown to terminate within its fuel): rank_al numbers the cells in column-major order.
-   NOT proved (DESIGN.md C15): the composition over several groups (cycleNextGroup /
-   cyclePreviousGroup) - in the model and compared with the implementation on every run. *)
+   And for the whole engine, forward (Engine.Select with cycleNextGroup, any number of groups
+   of either kind): k menu-complete steps from the candidate of global rank r end on the
+   candidate of rank (r + k) mod N, the global rank tells all candidates apart, and the
+   first step of a fresh engine shows rank 0 - so N steps show every candidate exactly
+   once and step N + 1 is the first again.
+   NOT proved (DESIGN.md C15): the backward composition over several groups
+   (cyclePreviousGroup + lastCell; the per-group backward steps are proved) and grid
+   construction - compared with the implementation on every run. *)
 From Model Require Import Base Grid.
-From Proofs Require Import GridP.
+From Proofs Require Import GridP EngineP.
 Open Scope Z_scope.
 
 Theorem C15_plain_forward_step : forall g c, wf_plain g -> valid g c ->
   match move_selector (at_cell g c) 1 0 with
   | Ok (g', false, _) => g' = at_cell g (pos_of g') /\ valid g (pos_of g') /\ rank_plain g (pos_of g') = rank_plain g c + 1
-  | Ok (_, true, next) => next = true /\ rank_plain g c = total g - 1
+  | Ok (g', true, next) => (exists a b, g' = set_pos g a b) /\ next = true /\ rank_plain g c = total g - 1
   | _ => False
   end.
 Proof. exact plain_forward_rank. Qed.
@@ -30,7 +36,7 @@ Proof. exact plain_forward_rank. Qed.
 Theorem C15_plain_backward_step : forall g c, wf_plain g -> valid g c ->
   match move_selector (at_cell g c) (-1) 0 with
   | Ok (g', false, _) => g' = at_cell g (pos_of g') /\ valid g (pos_of g') /\ rank_plain g (pos_of g') = rank_plain g c - 1
-  | Ok (_, true, next) => next = false /\ rank_plain g c = 0
+  | Ok (g', true, next) => (exists a b, g' = set_pos g a b) /\ next = false /\ rank_plain g c = 0
   | _ => False
   end.
 Proof. exact plain_backward_rank. Qed.
@@ -68,7 +74,7 @@ Qed.
 Theorem C15_aliased_forward_step : forall g c, wf_aliased g -> valid_al g c ->
   match move_selector (at_cell g c) 0 1 with
   | Ok (g', false, _) => g' = at_cell g (pos_of g') /\ valid_al g (pos_of g') /\ rank_al g (pos_of g') = rank_al g c + 1
-  | Ok (_, true, next) => next = true /\ rank_al g c + 1 = total_al g
+  | Ok (g', true, next) => (exists a b, g' = set_pos g a b) /\ next = true /\ rank_al g c + 1 = total_al g
   | _ => False
   end.
 Proof. exact aliased_forward_rank. Qed.
@@ -76,7 +82,7 @@ Proof. exact aliased_forward_rank. Qed.
 Theorem C15_aliased_backward_step : forall g c, wf_aliased g -> valid_al g c ->
   match move_selector (at_cell g c) 0 (-1) with
   | Ok (g', false, _) => g' = at_cell g (pos_of g') /\ valid_al g (pos_of g') /\ rank_al g (pos_of g') = rank_al g c - 1
-  | Ok (_, true, next) => next = false /\ rank_al g c = 0
+  | Ok (g', true, next) => (exists a b, g' = set_pos g a b) /\ next = false /\ rank_al g c = 0
   | _ => False
   end.
 Proof. exact aliased_backward_rank. Qed.
@@ -103,3 +109,21 @@ Proof.
   - unfold wf_aliased, nrows, zlen, fresh_group. cbn. repeat split; try lia; try reflexivity. repeat constructor; lia.
   - unfold valid_al, valid. repeat split; try (vm_compute; reflexivity); vm_compute; discriminate.
 Qed.
+
+(* ---- the whole engine, forward: any number of groups, plain or aliased *)
+
+(* k menu-complete steps move the global rank by k modulo the number of candidates *)
+Theorem C15_forward_cycle : forall k e r, all_wf e -> estate e r ->
+  exists e', selects k e = Ok e' /\ all_wf e' /\ gtotals e' = gtotals e /\ estate e' ((r + Z.of_nat k) mod Gtotal e).
+Proof. exact forward_steps. Qed.
+
+(* candidates with the same global rank are the same candidate *)
+Theorem C15_global_rank_tells_candidates_apart : forall e i1 g1 c1 i2 g2 c2, all_wf e ->
+  nth_grp e i1 = Some g1 -> nth_grp e i2 = Some g2 -> gvalid g1 c1 -> gvalid g2 c2 ->
+  goffset e i1 + grank g1 c1 = goffset e i2 + grank g2 c2 -> i1 = i2 /\ c1 = c2.
+Proof. exact global_rank_inj. Qed.
+
+(* the first menu-complete of a fresh engine shows the first candidate (rank 0) *)
+Theorem C15_first_step : forall e g0 rest, all_wf e -> e_cur e = -1 -> e_groups e = g0 :: rest -> g_px g0 = -1 -> g_py g0 = -1 ->
+  exists e', select e 1 = Ok e' /\ all_wf e' /\ gtotals e' = gtotals e /\ estate e' 0.
+Proof. exact first_select. Qed.
